@@ -204,8 +204,14 @@ def run(model, rep, tier):
     # ---- LIMB
     fn = ci.methods.get('makeLIMBpreene')
     w = Walker(VM_PARAMS['makeLIMBpreene'], 2)
-    # walk while recording classes of subscript assignments
+    # walk while recording classes of subscript assignments; the local behind each returned key is read off the
+    # returned dictionary (never assumed to be called like the key)
     outs = {}
+    rets = [n for n in walk_local(fn) if isinstance(n, ast.Return) and isinstance(n.value, ast.Dict)]
+    if len(rets) != 1:
+        raise AnalysisError('makeLIMBpreene: dictionary return not found')
+    key_of = {v.id: k.value for k, v in zip(rets[0].value.keys, rets[0].value.values)
+              if isinstance(k, ast.Constant) and isinstance(v, ast.Name)}
 
     def limb(stmts):
         for st in stmts:
@@ -216,8 +222,8 @@ def run(model, rep, tier):
                 t = st.targets[0]
                 if isinstance(t, ast.Name):
                     w.ev.env[t.id] = w._cls(st.value)
-                elif isinstance(t, ast.Subscript) and isinstance(t.value, ast.Name) and t.value.id in LIMB_OUT:
-                    outs[t.value.id] = (st, w._cls(st.value))
+                elif isinstance(t, ast.Subscript) and isinstance(t.value, ast.Name) and key_of.get(t.value.id) in LIMB_OUT:
+                    outs[key_of[t.value.id]] = (st, w._cls(st.value))
             elif isinstance(st, ast.AugAssign) and isinstance(st.target, ast.Subscript) and isinstance(st.target.value, ast.Name):
                 c = w._cls(st.value)
                 nm = st.target.value.id
